@@ -574,7 +574,13 @@ fn c20_dom<D: Dom>(cx: &RunCtx) {
     let mut subs = subs.into_inner().unwrap();
     // structured contexts: the hole in every argument position of every function, operator and
     // postfix mark of the evaluator, next to constants (finite family, independent of the depth bound)
-    let consts: Vec<&str> = if D::EV.has_point() { vec!["2", "3", "64", "125", "0.5", "10", "(-0)", "7"] } else { vec!["2", "3", "64", "125", "10", "(-1)", "7"] };
+    // (powers of ten and of two next to the small constants: an operation that recognises a *literal* special operand —
+    // log to the base 10, pow with the exponent 2 — must treat a computed one the same way)
+    let consts: Vec<&str> = if D::EV.has_point() {
+        vec!["2", "3", "64", "125", "0.5", "10", "(-0)", "7", "0", "1", "8", "100", "1000", "1000000", "1024", "1000000000000", "0.001"]
+    } else {
+        vec!["2", "3", "64", "125", "10", "(-1)", "7", "0", "1", "8", "100", "1000", "1000000", "1024", "1000000000000", "1000000000000000000"]
+    };
     let mut seen: Vec<&str> = Vec::new();
     for (name, f) in func_names(D::EV) {
         if seen.contains(name) {
@@ -630,6 +636,15 @@ fn c20_dom<D: Dom>(cx: &RunCtx) {
     // must be indistinguishable to every enclosing operation)
     for e in ["1+2", "6/2", "1+1", "4/2", "9-7", "2*2", "3-3", "0-2", "2^2", "8-5", "1+1+1"] {
         subs.push(e.to_string());
+    }
+    // … and worth the values a fast path may single out when they are written as literals: 10, 100, 1000, 8, 1, -1
+    for e in ["5+5", "2*5", "20/2", "abs(0-10)", "99+1", "10*10", "999+1", "10^3", "2^3", "3-2", "1-2", "5-5", "1000*1000", "10^6"] {
+        subs.push(e.to_string());
+    }
+    if D::EV.has_point() && D::EV != Ev::Dec {
+        for e in ["e+0", "e*1", "pi+0", "1/2", "exp(1)"] {
+            subs.push(e.to_string());
+        }
     }
     if D::EV.has_point() {
         for e in ["1.5+1.5", "0.5*4", "2.5-0.5", "0.25+0.25", "1-1.5"] {
